@@ -55,3 +55,32 @@ Section ChartProofs.
     unfold rs_finish. cbn. reflexivity.
   Qed.
 End ChartProofs.
+
+(* ---- a rule that STARTS with a sub-derivation continues that fragment ------------------------------------ *)
+Section StartNonTerminal.
+  Variable n : nat.
+  Variable T : table.
+  Variable dr : bool.
+
+  (* the rule state a finished fragment stands for (Finish only adds "full when N-1 pointers") *)
+  Definition resume_of (c : chart) (p : Z) : rs :=
+    {| rs_ptrs := l_ptrs (c_left c); rs_right := c_right c; rs_done := l_full (c_left c); rs_prob := p |}.
+
+  (* BeginNonTerminal is exactly that *)
+  Lemma begin_nonterminal_is_resume : forall c p, rs_begin_nonterminal c p = resume_of c p.
+  Proof. reflexivity. Qed.
+
+  (* and so is NonTerminal applied to the initial (empty) rule state, for every chart state a fragment can leave:
+     either it has pointers, or it is complete, or it is the empty fragment (null right state) *)
+  Lemma nonterminal_from_init : forall c p,
+    (l_ptrs (c_left c) = [] -> l_full (c_left c) = false -> c_right c = null_state) ->
+    rs_nonterminal n T dr rs_init c p = resume_of c p.
+  Proof.
+    intros [[ptrs full] right] p Hempty. unfold rs_nonterminal, resume_of. cbn [c_left c_right l_ptrs l_full rs_init rs_prob rs_right rs_ptrs rs_done s_words s_bo null_state] in *.
+    destruct ptrs as [|p0 ps].
+    - destruct full.
+      + cbn. f_equal; lia.
+      + rewrite (Hempty eq_refl eq_refl). cbn. f_equal; lia.
+    - cbn. reflexivity.
+  Qed.
+End StartNonTerminal.
